@@ -311,6 +311,10 @@ def run_case(ctx, name, params):
                 a.run()
             except Exception as e:
                 import traceback
+                if type(e).__module__.split(".")[0] == "nlopt":
+                    # the external optimiser gave up (RoundoffLimited, ForcedStop): the run did not finish, nothing to judge
+                    ctx.count("runs_aborted_by_external_optimiser")
+                    return
                 ctx.violation("run/%s/exception" % algo, "%s run with an SQLite store raised %r" % (algo, e), wit({"tb": traceback.format_exc()[-600:]}))
                 return
             finally:
